@@ -175,6 +175,8 @@ def dominating_atoms(f, pos):
     """atoms of the dominating branch edges, plus what follows from them at joins: when control can enter a dominating join block
     over several edges and the later tests rule out all but one of them, the atoms of that remaining edge hold as well
     (`while(i != end && !match(i)) ++i; if(i == end) return; ...` - here match(i) holds)."""
+    if pos is None:
+        return []       # a node that is not evaluated in this function (e.g. an argument bound to a reference of an inlined helper)
     cache = getattr(f, "_atoms_cache", None)
     if cache is None:
         cache = f._atoms_cache = {}
@@ -400,6 +402,7 @@ def walk_vals(f, start_block, val, limit=400, stop_at_loop_back=False, assume=No
     """like walk(), but every assignment / compound assignment / initialisation of a local whose value is determined is recorded, and
     the final valuation is returned as third result.  `assume(key)` may supply a value for an undetermined branch condition."""
     val = dict(val)
+    oracle = dict(val)       # a supplied value of a variable stands for the outcome of its undetermined definition (`sent = send(..)`)
     seen_all = []
     b = start_block
     back = set(f.dom().get(start_block, set())) - {start_block} if stop_at_loop_back else set()
@@ -427,7 +430,9 @@ def walk_vals(f, start_block, val, limit=400, stop_at_loop_back=False, assume=No
                     if ne["op"] != "=":
                         o = val.get(lk)
                         x = None if (x is None or o is None) else OPS[ne["op"]](o, x)
-                    if x is None:
+                    if x is None and ne["op"] == "=" and lk in oracle:
+                        val[lk] = oracle[lk]
+                    elif x is None:
                         val.pop(lk, None)
                     else:
                         val[lk] = x
@@ -437,6 +442,8 @@ def walk_vals(f, start_block, val, limit=400, stop_at_loop_back=False, assume=No
                         x = eval_expr(f, d["init"], val)
                         if x is not None:
                             val[d["n"]] = x
+                        elif d["n"] in oracle:
+                            val[d["n"]] = oracle[d["n"]]
                         else:
                             val.pop(d["n"], None)
         if isinstance(blk.get("term"), int) and f.nodes[blk["term"]]["k"] == "ReturnStmt":
@@ -465,9 +472,34 @@ def walk_vals(f, start_block, val, limit=400, stop_at_loop_back=False, assume=No
             if b is None:
                 return seen_all, "dead end", val
             continue
-        # switch statements: delegate to walk() for this block
-        sub_seen, sub_end = walk(f, b, val, limit=limit, stop_at_loop_back=stop_at_loop_back)
-        return seen_all + sub_seen[len([e for e in blk["el"] if isinstance(e, int)]):], sub_end, val
+        if blk.get("tk") == "SwitchStmt" and c is not None:
+            v = eval_expr(f, c, val)
+            if v is None and assume is not None:
+                v = assume(key(f, c))
+            if v is None:
+                return seen_all, "undetermined: " + key(f, c), val
+            target = None
+            default = None
+            for s_ in succ:
+                if s_ is None:
+                    continue
+                lab = f.blocks[s_].get("label")
+                l_ = lab
+                is_def = lab is None
+                while l_ is not None and l_ >= 0 and f.nodes[l_]["k"] in ("CaseStmt", "DefaultStmt"):
+                    if f.nodes[l_]["k"] == "CaseStmt" and f.nodes[l_].get("v") == v:
+                        target = s_
+                    if f.nodes[l_]["k"] == "DefaultStmt":
+                        is_def = True
+                    nxt = [x for x in f.nodes[l_]["c"] if x >= 0 and f.nodes[x]["k"] in ("CaseStmt", "DefaultStmt")]
+                    l_ = nxt[0] if nxt else None
+                if is_def:
+                    default = s_
+            b = target if target is not None else default
+            if b is None:
+                return seen_all, "dead end", val
+            continue
+        return seen_all, "unsupported terminator", val
     return seen_all, "limit", val
 
 
